@@ -702,3 +702,16 @@ def shrink_candidates(case):
             if files[i][0] != path:
                 m = None if meta is None else [t for t in meta if t[0] != files[i][0]]
                 yield (k, files[:i] + files[i + 1:], path, a, m)
+        if k == 'records' and meta is not None:
+            def framed(recs):
+                if isinstance(a, int):
+                    return b''.join(recs)
+                return b''.join(struct.pack(_reclen(a), len(r)) + r for r in recs)
+            for i, (nm, recs) in enumerate(meta):
+                for j in range(len(recs)):
+                    cands = [recs[:j] + recs[j + 1:]]
+                    if not isinstance(a, int) and len(recs[j]) > 1:
+                        cands.append(recs[:j] + [recs[j][:len(recs[j]) // 2]] + recs[j + 1:])
+                    for new in cands:
+                        m = meta[:i] + [(nm, new)] + meta[i + 1:]
+                        yield (k, [(n, framed(new)) if n == nm else (n, c) for n, c in files], path, a, m)
